@@ -90,6 +90,23 @@ func Generate(t *tape.Tape, p Profile) *World {
 	if w.HasExt && p.Clusters && t.Chance(1, 4) {
 		g.sameNamedFields()
 	}
+	if w.HasExt && p.Clusters && t.Chance(1, 4) {
+		// one call whose top-level argument types come from the two same-named imported packages (and a
+		// third one): the packages meet the qualifier within a single call
+		args := []Arg{{Param: "a0", Ty: Named("ext", "T")}, {Param: "a1", Ty: Named("oext", "T")}, {Param: "a2", Ty: Named("op", "G")}, {Param: "a3", Ty: Named("ext", "U")}}
+		r := t.Intn(len(args))
+		args = append(args[r:], args[:r]...)
+		args = args[:3+t.Intn(2)]
+		for i := range args {
+			args[i].Param = fmt.Sprintf("a%d", i)
+		}
+		c := &Call{Plugin: "tuple", Args: args, NRes: 1}
+		if f := g.finish(c, ""); f != nil {
+			// first in the sources: this call is where goderive meets these packages
+			f.File, f.Test, f.Form = 0, false, 0
+			w.Calls = append([]*Call{f}, w.Calls...)
+		}
+	}
 	if p.Twin {
 		g.twin()
 	}
@@ -881,6 +898,9 @@ func (g *gen) deepNest() *Call {
 	k := Basic([]string{"string", "int", "int64"}[t.Intn(3)])
 	m := Map(k, g.leaf())
 	cur := &Call{Plugin: "keys", Args: []Arg{p("m", m)}, NRes: 1, ResTy: Slice(k)}
+	if t.Chance(1, 3) {
+		cur = nil // the chain starts from a plain slice parameter (an edit can later put a derive call there)
+	}
 	n := 2 + t.Intn(2)
 	if t.Chance(1, 3) {
 		n += 2 + t.Intn(3) // five to eight levels: one more generation pass per level
@@ -892,11 +912,15 @@ func (g *gen) deepNest() *Call {
 			pl = "sort"
 		}
 		last = pl
+		in := Arg{Nested: cur, Ty: Slice(k)}
+		if cur == nil {
+			in = p("l", Slice(k))
+		}
 		switch pl {
 		case "filter", "takewhile":
-			cur = &Call{Plugin: pl, Args: []Arg{p(fmt.Sprintf("pred%d", i), Func([]*Ty{k}, []*Ty{Basic("bool")})), {Nested: cur, Ty: Slice(k)}}, NRes: 1, ResTy: Slice(k)}
+			cur = &Call{Plugin: pl, Args: []Arg{p(fmt.Sprintf("pred%d", i), Func([]*Ty{k}, []*Ty{Basic("bool")})), in}, NRes: 1, ResTy: Slice(k)}
 		default:
-			cur = &Call{Plugin: pl, Args: []Arg{{Nested: cur, Ty: Slice(k)}}, NRes: 1, ResTy: Slice(k)}
+			cur = &Call{Plugin: pl, Args: []Arg{in}, NRes: 1, ResTy: Slice(k)}
 		}
 	}
 	return g.finish(cur, "")
